@@ -48,6 +48,7 @@ type Contract struct {
 	AllocBound  ast.Expr
 	Props       []string
 	GhostUpd    []*AnchorClause
+	Interf      []*AnchorClause
 	ChanInv     map[string]ast.Expr // channel class name -> invariant over "m"
 	ChanNoDrop  map[string]bool
 	Assumes     []*AnchorClause
@@ -312,6 +313,17 @@ func parseContractFile(path, pkg string) (*ContractFile, error) {
 			} else {
 				cur.GhostUpd = append(cur.GhostUpd, ac)
 			}
+		case "interference":
+			// interference after <anchor> : <modifies items>
+			// other goroutines may have changed this shared state while the anchored operation blocked: the items
+			// are havocked at that point (knowledge is only removed, so the clause cannot make a proof unsound)
+			when, r2 := splitWord(rest)
+			idx := strings.Index(r2, ":")
+			if idx < 0 || (when != "before" && when != "after") {
+				return nil, fail(fmt.Errorf("interference needs before|after <anchor> : items"))
+			}
+			ac := &AnchorClause{Anchor: strings.TrimSpace(r2[:idx]), When: when, Src: strings.TrimSpace(r2[idx+1:])}
+			cur.Interf = append(cur.Interf, ac)
 		case "trusted":
 			cur.Trusted = true
 		case "pure":
